@@ -213,6 +213,7 @@ async def connection_level(chk, rng, meter, quick):
         "switch-reply": None,
         "query": lambda n: com_query(b"select 1", caps=caps, attrs=attrs),
         "prepare": lambda n: b"\x16select ?, ? from t",
+        "prepare-long": lambda n: b"\x16SELECT ? AS a, col_one, col_two FROM some_table WHERE name = 'abc def' AND other = \"x y z\" AND `q` = ?",
         "execute": lambda n: com_stmt_execute(0, [(T_VAR_STRING, False, b"abc", b""), (T_LONG, False, 7, b"")], caps=caps, attrs=attrs),
         "long-data": lambda n: b"\x18" + struct.pack("<IH", 0, 0) + b"chunk",
         "fetch": lambda n: b"\x1c" + struct.pack("<II", 0, 5),
@@ -259,11 +260,14 @@ async def connection_level(chk, rng, meter, quick):
                 # rebuild the mutation on the real nonce where possible: keep the mutated bytes as they are
                 pass
             meter.start(120 * len(payload) + 20000)
+            import time as _time
+            t0 = _time.perf_counter()
             try:
                 a.t.feed(pkt(seq, payload))
                 await settle(25)
             except Budget:
                 pass
+            wall = _time.perf_counter() - t0
             used = meter.stop()
             out = a.take()
             chk.case((pos, payload), nontrivial=True,
@@ -272,6 +276,9 @@ async def connection_level(chk, rng, meter, quick):
             what = dict(position=pos, mutation=name, payload=hexs(payload), reply=[p[:12].hex() for _, p in out][:6])
             if meter.fired:
                 chk.fail("packet handling exceeded its work budget (event loop blocked)", dict(what, line_events=used))
+            elif wall > 0.75 + 1e-6 * len(payload):
+                # work done outside Python source lines (e.g. inside the regex engine) is invisible to the line budget
+                chk.fail("packet handling blocked the event loop (wall clock)", dict(what, seconds=round(wall, 2)))
             # the offender: ERR / well-formed reply and in step, or closed
             waiting = bool(out) and (out[-1][1][:1] == b"\x01" or (out[-1][1][:1] == b"\xfe" and len(out[-1][1]) >= 9))
             if waiting:
